@@ -679,10 +679,30 @@ fn main() {
             };
             let thorough = tier == "thorough";
             let mut dist = std::collections::BTreeMap::new();
+            let mut stream_panics: Vec<String> = vec![];
             for s in streams.split(',') {
                 let before = o.lines;
                 let mut rng = Rng::new(seed ^ gen::hash_str(s));
-                gen::run_stream(s, thorough, &mut rng, &mut o);
+                // generator code also calls the crate (printing a parsed range, building grids): a panic there ends
+                // the stream, and the text that was last handed to the crate is re-evaluated under guard so that the
+                // panic is recorded as the crate's answer to a concrete request
+                let r = catch_unwind(AssertUnwindSafe(|| gen::run_stream(s, thorough, &mut rng, &mut o)));
+                if r.is_err() {
+                    let (kind, text) = gen::LAST_TEXT.with(|l| l.borrow().clone());
+                    eprintln!("stream {} panicked inside generator-side crate code; last text: {:?}", s, text);
+                    stream_panics.push(s.to_string());
+                    match kind {
+                        'r' => {
+                            o.rround(&text);
+                            o.rparse(&text);
+                        }
+                        'v' => {
+                            o.vparse(&text);
+                            o.vround(&text);
+                        }
+                        _ => {}
+                    }
+                }
                 dist.insert(s.to_string(), o.lines - before);
             }
             o.w.flush().unwrap();
@@ -693,6 +713,8 @@ fn main() {
                 s.push_str(&o.per_op.iter().map(|(k, v)| format!("\"{}\":{}", k, v)).collect::<Vec<_>>().join(","));
                 s.push_str("},\"diag_failures\":[");
                 s.push_str(&o.diag_failures.iter().take(20).map(|x| format!("\"{}\"", x)).collect::<Vec<_>>().join(","));
+                s.push_str("],\"stream_panics\":[");
+                s.push_str(&stream_panics.iter().map(|x| format!("\"{}\"", x)).collect::<Vec<_>>().join(","));
                 let _ = write!(s, "],\"lines\":{}}}", o.lines);
                 std::fs::write(p, s).unwrap();
             }
